@@ -1447,13 +1447,23 @@ func (p *scionPacketProcessor) updateNonConsDirIngressSegID() disposition {
 	return pForward
 }
 
+// epicHdrLen is the length of what precedes the SCION path in the path header: the EPIC metadata
+// (packet ID, PHVF, LHVF) for EPIC packets, nothing otherwise. SCMP pointers are byte offsets in
+// the offending packet, so they must account for it.
+func (p *scionPacketProcessor) epicHdrLen() int {
+	if p.scionLayer.PathType == epic.PathType {
+		return epic.MetadataLen
+	}
+	return 0
+}
+
 func (p *scionPacketProcessor) currentInfoPointer() uint16 {
-	return uint16(slayers.CmnHdrLen + p.scionLayer.AddrHdrLen() +
+	return uint16(slayers.CmnHdrLen + p.scionLayer.AddrHdrLen() + p.epicHdrLen() +
 		scion.MetaLen + path.InfoLen*int(p.path.PathMeta.CurrINF))
 }
 
 func (p *scionPacketProcessor) currentHopPointer() uint16 {
-	return uint16(slayers.CmnHdrLen + p.scionLayer.AddrHdrLen() +
+	return uint16(slayers.CmnHdrLen + p.scionLayer.AddrHdrLen() + p.epicHdrLen() +
 		scion.MetaLen + path.InfoLen*p.path.NumINF + path.HopLen*int(p.path.PathMeta.CurrHF))
 }
 
